@@ -503,8 +503,10 @@ class CallMixin(object):
         key = self.method_key(cls, m)
         ps = params_of(m)
         contract = self.contracts.get(key)
-        if contract is not None and contract.applies(m, len(ps)) and not (self.frames and self.frame.fname == key and False):
-            if not (self.top_key == key and self.inline_depth == 0 and self.top_node is m):
+        if contract is not None:
+            contract = contract.select(m, len(ps))
+        if contract is not None:
+            if not (self.top_node is m):
                 return self.call_by_contract(contract, obj, cls, m, argvals, n)
         return self.inline(obj, cls, m, argvals, n)
 
